@@ -163,6 +163,24 @@ def _hist_case(init_mask, cache_state, ops, peek=False):
                 w1 = len([x for x in fs.log if x[0] in ("open_w", "replace", "write")])
                 if ret2 is not None or w1 != w0:
                     problems.append((n, "an immediate second update_cache() found something to do", ret2, w1 - w0))
+            elif op == 6:    # ANOTHER process (its own Project object) initialises job arg
+                memfs.mkproject(fs).open_job(U[arg]).init()
+                present.add(arg)
+            elif op == 7:    # re-key arg -> arg+1 through a handle obtained BY ID
+                tgt = (arg + 1) % 4
+                if arg in present and tgt not in present:
+                    j = pr.open_job(id=refs.canon_id(U[arg]))
+                    j.statepoint["a"] = tgt
+                    present.discard(arg)
+                    present.add(tgt)
+                else:
+                    continue
+            elif op == 8:    # the identical state point is assigned again through a handle obtained by id (re-applying an id -> state point table)
+                if arg in present:
+                    j = pr.open_job(id=refs.canon_id(U[arg]))
+                    j.statepoint = dict(U[arg])
+                else:
+                    continue
             elif op == 4:    # restart
                 pr = memfs.mkproject(fs)
             elif op == 5:    # delete cache file
@@ -175,22 +193,27 @@ def _hist_case(init_mask, cache_state, ops, peek=False):
     return (not problems), problems
 
 
+NOPS = 27
+
+
 def _dec(x):
     """op code 0..2 take an argument 0..3 -> 12 + 3 argument-free ops = 15 instances"""
     if x < 12:
         return x // 4, x % 4
-    return x - 12 + 3, 0
+    if x < 15:
+        return x - 12 + 3, 0
+    return 6 + (x - 15) // 4, (x - 15) % 4
 
 
 def h_hist(init_mask: int, cache_state: int, o0: int, o1: int, o2: int, o3: int, n: int, peek: bool):
-    assert 0 <= init_mask < 16 and 0 <= cache_state <= 4 and 0 <= o0 < 15 and 0 <= o1 < 15 and 0 <= o2 < 15 and 0 <= o3 < 15 and 1 <= n <= 4 and part_ok(o0)
+    assert 0 <= init_mask < 16 and 0 <= cache_state <= 4 and 0 <= o0 < NOPS and 0 <= o1 < NOPS and 0 <= o2 < NOPS and 0 <= o3 < NOPS and 1 <= n <= 4 and part_ok(o0)
     assert (n >= 2 or o1 == 0) and (n >= 3 or o2 == 0) and (n >= 4 or o3 == 0)
     assert n <= (2 if tier() == "quick" else 3) or (tier() != "quick" and init_mask == 5 and cache_state == 4)
     assert not peek or (cache_state in (1, 4) and init_mask in (1, 5))
     assert init_mask in (0, 1, 5, 6, 15)      # representative initial subsets: none, one, two non-adjacent, two adjacent, all
     fresh_path()
     init_mask, cache_state, n = ci(init_mask, 0, 15), ci(cache_state, 0, 4), ci(n, 1, 4)
-    ops = [_dec(ci(o, 0, 14)) for o in (o0, o1, o2, o3)][:n]
+    ops = [_dec(ci(o, 0, NOPS - 1)) for o in (o0, o1, o2, o3)][:n]
     peek = cb(peek)
     with nt():
         r = _hist_case(init_mask, cache_state, ops, peek)
@@ -232,7 +255,7 @@ def h_chunks(n: int, c: int):
 
 
 # ------------------------------------------------------------------------------------------------ E4: the REAL Project constructor, configuration options
-def _config_case(th, cached, njobs):
+def _config_case(th, cached, njobs, nonfinite=False):
     """a project opened through the real constructor whose configuration file sets the cache-miss warning threshold (hand-edited or written
     by `signac config`): queries answer the same with a fresh, a stale and without a cache file"""
     import os, shutil
@@ -244,6 +267,9 @@ def _config_case(th, cached, njobs):
         pr = signac.init_project(root)
         for i in range(njobs):
             pr.open_job(U[i]).init()
+        if nonfinite:
+            # legal, if unusual, state point values: no cut-off / not measured
+            pr.open_job({"r_cut": float("inf"), "t": float("nan")}).init()
         if cached == 1:
             pr.update_cache()
         elif cached == 2:
@@ -254,6 +280,23 @@ def _config_case(th, cached, njobs):
             with open(os.path.join(root, ".signac", "config"), "a") as f:
                 f.write("statepoint_cache_miss_warning_threshold = %s\n" % th)
         want = _expected(set(range(njobs)))
+        if nonfinite:
+            prn = signac.get_project(root, search=False)
+            try:
+                prn.update_cache()
+                if prn.update_cache() is not None:
+                    problems.append(("second update_cache() found something to do",))
+                import gzip as _gz
+                cf = json.loads(_gz.decompress(open(os.path.join(root, ".signac", "statepoint_cache.json.gz"), "rb").read()))
+                if len(cf) != njobs + 1 or any(v is None for v in cf.values()):
+                    problems.append(("cache file after update_cache() is not exact", sorted(cf)))
+            except Exception as e:  # noqa
+                problems.append(("update_cache() failed on an uncorrupted workspace", type(e).__name__, str(e)[:80]))
+            prn.open_job({"r_cut": float("inf"), "t": float("nan")}).remove()
+            try:
+                prn.update_cache()
+            except Exception as e:  # noqa
+                problems.append(("update_cache() failed", type(e).__name__))
         try:
             got = _observe(signac.get_project(root, search=False))
         except Exception as e:  # noqa
@@ -266,12 +309,12 @@ def _config_case(th, cached, njobs):
     return problems
 
 
-def h_config(th: int, cached: int, njobs: int):
+def h_config(th: int, cached: int, njobs: int, nonfinite: bool):
     assert 0 <= th <= 4 and 0 <= cached <= 2 and 1 <= njobs <= 3
     fresh_path()
-    th, cached, njobs = pick([None, 0, 1, 2, 500], th), ci(cached, 0, 2), ci(njobs, 1, 3)
+    th, cached, njobs, nonfinite = pick([None, 0, 1, 2, 500], th), ci(cached, 0, 2), ci(njobs, 1, 3), cb(nonfinite)
     with nt():
-        problems = _config_case(th, cached, njobs)
+        problems = _config_case(th, cached, njobs, nonfinite)
     reached()
     assert not problems
 
@@ -279,7 +322,7 @@ def h_config(th: int, cached: int, njobs: int):
 HARNESSES = [
     dict(name="h_chunks", timeout=(300, 600)),
     dict(name="h_config", timeout=(300, 600), unblock=True),
-    dict(name="h_hist", twin="h_hist__reach", timeout=(900, 3000), parts=(15, 15)),
+    dict(name="h_hist", twin="h_hist__reach", timeout=(900, 3000), parts=(27, 27)),
 ]
 
 
